@@ -6,11 +6,12 @@ package main
 // tie theorem accepts.
 //
 // Nothing here depends on the name of a local, a parameter, a receiver or an unexported helper (k1kit.go): a value is
-// identified by where it comes from.  `strings.NewReader(returnPath)` is reported as "strings.NewReader(fmt.Sprintf#0)"
-// when `returnPath` is a local defined once by a fmt.Sprintf, whose format and canonical arguments are fact 0; the
-// body handed to Deliver is `bytes.NewBuffer($r.text.ReadDotBytes()#0).Bytes()` whatever the locals and the reading
-// helper are called; the functions that stream a message to a POP3 client are the helpers that the RETR and TOP
-// clauses of the TRANSACTION handler call and that build a bufio.Scanner.  A value computed before a loop and used in
+// identified by where it comes from.  `strings.NewReader(returnPath)` is reported as "strings.NewReader(format#0)"
+// when `returnPath` is a string built from literal pieces and values (fmt.Sprintf with plain verbs, `+`, strconv.Itoa:
+// one format + arguments form, kit_t1a.go), whose format and canonical arguments are fact 0; the body handed to Deliver
+// is `$r.text.ReadDotBytes()#0` whatever the locals and the reading helper are called, directly or through a
+// bytes.Buffer that is only read (the identity); the functions that stream a message to a POP3 client are the helpers that the RETR and TOP
+// rows of the TRANSACTION handler's table call (read off executed paths) and that build a bufio.Scanner.  A value computed before a loop and used in
 // it is `$outer(…)`: hoisting a reader out of the per-mailbox loop is NOT the same program.
 
 import (
@@ -60,22 +61,63 @@ func optStrList(l []string, ok bool) string {
 	return "some " + strList(l)
 }
 
-// dotSprintf: x (through locals that are defined once) is fmt.Sprintf(<literal>, args…): format, canonical arguments,
-// and whether the value is computed outside a loop that uses it.
+// dotSprintf: x (through locals that are defined once) is a string built from literal pieces and values — by
+// fmt.Sprintf, by `+`, with strconv.Itoa — : its format + arguments form (kit_t1a.go: k2FormatStr; the plain verbs
+// %s %v %d are one verb, written %s), and whether the value is computed outside a loop that uses it.
 func dotSprintf(e *k1Env, x ast.Expr) (fm *string, args []string, outer bool, ok bool) {
-	outer = strings.HasPrefix(e.canon(x), "$outer(")
-	ce, isCall := e.deref(x).(*ast.CallExpr)
-	if !isCall || !k1QualCall(ce, "fmt", "Sprintf") || len(ce.Args) < 1 {
+	c := e.canon(x)
+	if strings.HasPrefix(c, "$outer(") && strings.HasSuffix(c, ")") {
+		outer = true
+		c = c[len("$outer(") : len(c)-1]
+	}
+	f, as, isFmt := k2FormatStr(c)
+	if !isFmt {
 		return nil, nil, outer, false
 	}
-	s, isStr := k1Str(ce.Args[0])
-	if !isStr {
-		return nil, nil, outer, false
+	return &f, as, outer, true
+}
+
+// dotBufferIdentity: x is `B.Bytes()` where B is bytes.NewBuffer(y) — directly, or a local defined once by it that the
+// function otherwise only READS (Bytes, Len, String, Cap): the bytes handed on are y itself.
+func dotBufferIdentity(e *k1Env, body ast.Node, x ast.Expr) (ast.Expr, bool) {
+	ce, ok := k1Unparen(x).(*ast.CallExpr)
+	if !ok || len(ce.Args) != 0 {
+		return nil, false
 	}
-	for _, a := range ce.Args[1:] {
-		args = append(args, e.canon(a))
+	sel, ok := ce.Fun.(*ast.SelectorExpr)
+	if !ok || sel.Sel.Name != "Bytes" {
+		return nil, false
 	}
-	return &s, args, outer, true
+	nb, ok := e.deref(sel.X).(*ast.CallExpr)
+	if !ok || !k1QualCall(nb, "bytes", "NewBuffer") || len(nb.Args) != 1 {
+		return nil, false
+	}
+	if id, isId := k1Unparen(sel.X).(*ast.Ident); isId && id.Obj != nil {
+		// every use of the local is a read-only method call
+		readOnly := map[string]bool{"Bytes": true, "Len": true, "String": true, "Cap": true}
+		okUses := true
+		uses := map[*ast.Ident]bool{}
+		ast.Inspect(body, func(n ast.Node) bool {
+			if c, isCall := n.(*ast.CallExpr); isCall {
+				if s, isSel := c.Fun.(*ast.SelectorExpr); isSel && readOnly[s.Sel.Name] {
+					if i, isI := k1Unparen(s.X).(*ast.Ident); isI && i.Obj == id.Obj {
+						uses[i] = true
+					}
+				}
+			}
+			return true
+		})
+		ast.Inspect(body, func(n ast.Node) bool {
+			if i, isI := n.(*ast.Ident); isI && i.Obj == id.Obj && !uses[i] && i.Pos() != id.Obj.Pos() {
+				okUses = false
+			}
+			return true
+		})
+		if !okUses {
+			return nil, false
+		}
+	}
+	return nb.Args[0], true
 }
 
 // dotUnique: the unique call inside n satisfying pred (nil when there is not exactly one)
@@ -125,7 +167,7 @@ func extractDot() {
 				if isCall && k1QualCall(in, "strings", "NewReader") && len(in.Args) == 1 && nf < 2 {
 					if fm, as, outer, ok := dotSprintf(e, in.Args[0]); ok {
 						fmts[nf], fargs[nf] = fm, as
-						s := "fmt.Sprintf#" + strconv.Itoa(nf)
+						s := "format#" + strconv.Itoa(nf)
 						if outer {
 							s = "$outer(" + s + ")"
 						}
@@ -138,9 +180,9 @@ func extractDot() {
 			}
 		}
 	}
-	g.def("returnPathFmt", "Option (List Nat)", dotOptBytes(fmts[0]), "format of the first fmt.Sprintf that Deliver's MultiReader reads (fmt.Sprintf#0): "+optStr(fmts[0]))
+	g.def("returnPathFmt", "Option (List Nat)", dotOptBytes(fmts[0]), "format (+ arguments form of the Sprintf / concatenation) of the first built string that Deliver's MultiReader reads (format#0): "+optStr(fmts[0]))
 	g.def("returnPathArgs", "List String", strList(fargs[0]), "its arguments ($p<i> = i-th parameter of Deliver)")
-	g.def("recvdFmt", "Option (List Nat)", dotOptBytes(fmts[1]), "format of the second one (fmt.Sprintf#1): "+optStr(fmts[1]))
+	g.def("recvdFmt", "Option (List Nat)", dotOptBytes(fmts[1]), "format of the second one (format#1): "+optStr(fmts[1]))
 	g.def("recvdArgs", "List String", strList(fargs[1]), "its arguments")
 	g.def("multiReaderArgs", "Option (List String)", optStrList(shape, shapeOK), "the readers concatenated into the stored source, in order")
 	// the constant recvdTimeFmt
@@ -181,14 +223,18 @@ func extractDot() {
 			for _, a := range dc.Args {
 				if fm, as, _, ok := dotSprintf(e, a); ok && rh == nil {
 					rh, rhArgs = fm, as
-					da = append(da, "fmt.Sprintf#hdr")
+					da = append(da, "format#hdr")
+					continue
+				}
+				if y, ok := dotBufferIdentity(e, roles.data.Body, a); ok {
+					da = append(da, e.canon(y)) // a bytes.Buffer that is only read is the identity
 					continue
 				}
 				da = append(da, e.canon(a))
 			}
 		}
 	}
-	g.def("recvdHeaderFmt", "Option (List Nat)", dotOptBytes(rh), "format of the fmt.Sprintf the DATA handler passes to Deliver (fmt.Sprintf#hdr): "+optStr(rh))
+	g.def("recvdHeaderFmt", "Option (List Nat)", dotOptBytes(rh), "format of the built string the DATA handler passes to Deliver (format#hdr): "+optStr(rh))
 	g.def("recvdHeaderArgs", "List String", strList(rhArgs), "its arguments ($r = the session)")
 	g.def("deliverArgs", "Option (List String)", optStrList(da, daOK), "what the DATA handler passes to Deliver, each argument traced to where it comes from (locals and the block-reading helper looked through)")
 
@@ -201,30 +247,11 @@ func extractDot() {
 			psend = fd
 		}
 	}
-	var trans *k1Switch
-	if d != nil && d.handlers["TRANSACTION"] != nil {
-		trans = k1TopSwitch(d.handlerEnv(pp, "TRANSACTION"), d.handlers["TRANSACTION"].Body)
-	}
+	bodyOf, _ := pop3BodyFuncs(pp, d)
 	for _, pair := range [][2]string{{"sendMessage", "RETR"}, {"sendMessageTop", "TOP"}} {
 		name, verb := pair[0], pair[1]
-		// the helper(s) of the clause that build a scanner
-		var f *ast.FuncDecl
-		nf := 0
-		if trans != nil {
-			if cc := trans.clause(verb); cc != nil {
-				for _, st := range cc.Body {
-					for _, ce := range k1Calls(st) {
-						if h := pp.resolve(ce); h != nil && len(dotScannerCalls(h)) > 0 {
-							f = h
-							nf++
-						}
-					}
-				}
-			}
-		}
-		if nf != 1 {
-			f = nil
-		}
+		// the helper behind the row of the verb that builds a scanner (ends.go: pop3BodyFuncs)
+		f := bodyOf[verb]
 		var ba, sc, sent []string
 		baOK, scOK, hasSplit := false, false, false
 		dots := []string{}
